@@ -98,6 +98,11 @@ def layouts(tier: str) -> list[dict]:
     add("grp4-alt-revorder-be", copy.deepcopy(sub4), [{"uid": "g", "name": "G", "width": 128, "sub_regs": ["s0", "s1", "s2", "s3"],
                                                       "reverse_subregs_order": True, "alternative_widths": [64]}],
         depth_q=3, depth_t=4)
+    # all three group options together (each pair is used by the device database, the triple by none - yet)
+    add("grp4-alt-revorder-reversed-le", copy.deepcopy(sub4), [{"uid": "g", "name": "G", "width": 128, "sub_regs": ["s0", "s1", "s2", "s3"],
+                                                               "reverse_subregs_order": True, "reversed": True, "config_as_hexstring": True,
+                                                               "alternative_widths": [64]}],
+        endian="little", depth_q=3, depth_t=4)
     # layouts the spec loader cannot produce, built through the public class API (Register(reverse=True) with bit-fields;
     # a group register with bit-fields of its own, one of them straddling the sub-register boundary)
     add("api-reversed-fields", [_reg("r0", "R0", 0, 32, [_bf("r0f0", "F0", 8), _bf("r0f1", "F1", 16), _bf("r0f2", "F2", 8)])],
@@ -631,6 +636,16 @@ def explore(task: Any) -> dict:
         depth_done = depth
         if not frontier:
             break
+    if lclass:
+        # pin every (clause, discriminator) of these layouts to its WITNESS: the first failing transition in BFS order (shortest
+        # history, fixed operation order) with the values it produced.  A known finding then names one specific history and
+        # outcome; any change of behaviour in the same corner gives another witness and is reported as a new violation.
+        import hashlib
+
+        first: dict = {}
+        for cl, disc, det in viol:
+            first.setdefault((cl, disc), hashlib.sha1(det.encode()).hexdigest()[:8])
+        viol = [(cl, f"{disc}#{first[(cl, disc)]}", det) for cl, disc, det in viol]
     return {"viol": core.dedupe(viol), "count": {"states": len(seen), "transitions": transitions, "ops": len(ops)},
             "depth_done": depth_done, "fixpoint": not frontier, "layout": layout["name"],
             "sample": [list(map(list, seen[k])) for k in list(seen)[-2:]]}
